@@ -94,3 +94,29 @@ func VerifC12_HexInjective() {
 	}
 	verifrt.Observe("hex", ha[:])
 }
+
+// Concurrent first publishers on a brand-new topic: two publishers take ids from the topic's
+// generator at the same time, every interleaving within the preemption bound, with the
+// happens-before race monitor on. The ids are distinct and strictly increasing in the order the
+// generator handed them out, and the generator state (the factory object and its last id) is
+// only touched under the generator's lock - an unsynchronised check-then-create of the factory
+// would let each publisher make its own generator and hand out the same id twice.
+func VerifC12_ConcurrentFirstPublishers() {
+	o := verifOpts()
+	o.ID = 1023
+	n := verifShellNSQD(o)
+	verifrt.Preemptions(verifrt.Bound("first-publishers-preemptions", 1, 2))
+	verifrt.StubNative("(*github.com/nsqio/nsq/nsqd.NSQD).Notify", verifNotifyNop)
+	verifrt.RaceCheck()
+	var t *Topic
+	verifrt.Atomic(func() { t = NewTopic("t", n, func(*Topic) {}) })
+	var a, b MessageID
+	verifrt.Go("pub-a", func() { a = t.GenerateID() })
+	verifrt.Go("pub-b", func() { b = t.GenerateID() })
+	verifrt.Join()
+	verifrt.Assert(a != b, "concurrent-publishers-get-distinct-ids")
+	verifrt.Reach("two-ids-generated", a != b)
+	if !verifrt.Symbolic() {
+		t.Close()
+	}
+}
